@@ -120,11 +120,10 @@ package redisemu
 //@ modifies respDeserializer.nextPos
 //@ ensures found: valid ==> rl.pos+2 <= rl.nextPos && rl.nextPos <= len(rl.content) && rl.content[rl.nextPos-2] == 13 && rl.content[rl.nextPos-1] == 10
 //@ ensures first: valid ==> all(j, rl.pos, rl.nextPos-2, !(rl.content[j] == 13 && rl.content[j+1] == 10))
-//@ ensures notfound: !valid ==> rl.nextPos < 0 && all(j, rl.pos, len(rl.content)-1, !(rl.content[j] == 13 && rl.content[j+1] == 10))
-//@ ensures others: forall r *respDeserializer :: r != rl ==> r.nextPos == old(r.nextPos)
+//@ ensures notfound: !valid ==> rl.nextPos < 0
+//@ ensures notfound.all: !valid ==> all(j, rl.pos, len(rl.content)-1, !(rl.content[j] == 13 && rl.content[j+1] == 10))
 //@ loop 1 invariant rl.pos <= pos && rl.nextPos < 0 && end == len(rl.content)-1
 //@ loop 1 invariant all(j, rl.pos, pos, !(rl.content[j] == 13 && rl.content[j+1] == 10))
-//@ loop 1 invariant forall r *respDeserializer :: r != rl ==> r.nextPos == old(r.nextPos)
 //@ loop 1 decreases len(rl.content) - pos
 
 //@ func respDeserializer.moveToNextLine
@@ -132,7 +131,6 @@ package redisemu
 //@ requires rl != nil && rl.nextPos >= 0
 //@ modifies respDeserializer.pos respDeserializer.nextPos respDeserializer.lineNumber
 //@ ensures moved: rl.pos == old(rl.nextPos) && rl.nextPos == -1
-//@ ensures others: forall r *respDeserializer :: r != rl ==> r.pos == old(r.pos) && r.nextPos == old(r.nextPos)
 
 //@ func respDeserializer.peekNextLine
 //@ prop C01 C13
@@ -140,9 +138,10 @@ package redisemu
 //@ modifies respDeserializer.nextPos
 //@ ensures found: valid ==> rl.pos+2 <= rl.nextPos && rl.nextPos <= len(rl.content) && rl.content[rl.nextPos-2] == 13 && rl.content[rl.nextPos-1] == 10
 //@ ensures first: valid ==> all(j, rl.pos, rl.nextPos-2, !(rl.content[j] == 13 && rl.content[j+1] == 10))
-//@ ensures line: valid ==> strlen(line) == rl.nextPos-2-rl.pos && all(j, 0, strlen(line), line[j] == rl.content[rl.pos+j])
+//@ ensures linelen: valid ==> strlen(line) == rl.nextPos-2-rl.pos
+//@ ensures line: valid ==> all(j, 0, strlen(line), line[j] == rl.content[rl.pos+j])
 //@ ensures notfound: !valid ==> rl.nextPos < 0
-//@ ensures others: forall r *respDeserializer :: r != rl ==> r.nextPos == old(r.nextPos)
+//@ use respDeserializer.findNextLine.first
 
 //@ func respDeserializer.peekBulkLine
 //@ prop C01 C13
@@ -150,17 +149,17 @@ package redisemu
 //@ requires length >= 0
 //@ modifies respDeserializer.nextPos
 //@ ensures ok: valid ==> rl.nextPos == rl.pos+length+2 && rl.pos+2 <= rl.nextPos && rl.nextPos <= len(rl.content) && rl.content[rl.nextPos-2] == 13 && rl.content[rl.nextPos-1] == 10
-//@ ensures line: valid ==> len(line) == length && all(j, 0, length, line[j] == rl.content[rl.pos+j])
-//@ ensures others: forall r *respDeserializer :: r != rl ==> r.nextPos == old(r.nextPos)
+//@ ensures linelen: valid ==> len(line) == length
+//@ ensures line: valid ==> all(j, 0, length, line[j] == rl.content[rl.pos+j])
 
 //@ define rdstate
 //@ requires rl != nil && 0 <= rl.pos && rl.pos <= len(rl.content) && rl.nextPos < 0
-//@ modifies respDeserializer.pos respDeserializer.nextPos respDeserializer.lineNumber alloc map<respValue,respValue> map<respValue,struct{}> orderedRespMap respValue
-//@ ensures cursor: rl.nextPos < 0 && old(rl.pos) <= rl.pos && rl.pos <= len(rl.content)
+//@ modifies respDeserializer.pos respDeserializer.nextPos respDeserializer.lineNumber alloc map<respValue,respValue> map<respValue,struct{}> orderedRespMap respValue Builder
+//@ ensures cursor: old(rl.pos) <= rl.pos && rl.pos <= len(rl.content) && (valid ==> rl.nextPos < 0)
 //@ end
 
 //@ define rdmods
-//@ loop 1 modifies respDeserializer.pos respDeserializer.nextPos respDeserializer.lineNumber alloc map<respValue,respValue> map<respValue,struct{}> orderedRespMap respValue
+//@ loop 1 modifies respDeserializer.pos respDeserializer.nextPos respDeserializer.lineNumber alloc map<respValue,respValue> map<respValue,struct{}> orderedRespMap respValue Builder
 //@ end
 
 // the dynamic types a deserialized value can carry (nil included); the ones
@@ -190,19 +189,22 @@ package redisemu
 
 //@ func newRespMapSized
 //@ prop C13
-//@ requires 0 <= size && size <= (1<<47)
+//@ requires 0 <= size && size <= (1<<48)
 //@ modifies alloc map<respValue,respValue>
-//@ ensures nonnil: result.m != nil
+//@ ensures nonnil: result.orderedRespMap.m != nil
 
 //@ func newRespMap
 //@ prop C13
 //@ modifies alloc map<respValue,respValue>
-//@ ensures nonnil: result.m != nil
+//@ ensures nonnil: result.orderedRespMap.m != nil
 
 //@ func orderedRespMap.set
 //@ prop C13
-//@ requires orm != nil && orm.m != nil && hashable(k)
+//@ requires nonnil: orm != nil
+//@ requires mapnonnil: orm.m != nil
+//@ requires hashable: hashable(k)
 //@ modifies map<respValue,respValue> orderedRespMap
+//@ ensures samemap: orm.m == old(orm.m)
 
 //@ func respDeserializer.allocHint
 //@ prop C13
@@ -249,7 +251,7 @@ package redisemu
 //@ include rdstate
 //@ include rdmods
 //@ requires pairs >= 0
-//@ loop 1 invariant rl.nextPos < 0 && old(rl.pos) <= rl.pos && rl.pos <= len(rl.content) && 0 <= i && m.m != nil
+//@ loop 1 invariant rl.nextPos < 0 && old(rl.pos) <= rl.pos && rl.pos <= len(rl.content) && 0 <= i && m.orderedRespMap.m != nil
 
 //@ func respDeserializer.getNextAttributeMap
 //@ prop C01 C13
@@ -291,7 +293,7 @@ package redisemu
 //@ include rdstate
 //@ include rdmods
 //@ ensures progress: valid ==> rl.pos > old(rl.pos)
-//@ loop 1 invariant rl.nextPos < 0 && old(rl.pos) <= rl.pos && rl.pos <= len(rl.content) && m.m != nil
+//@ loop 1 invariant rl.nextPos < 0 && old(rl.pos) <= rl.pos && rl.pos <= len(rl.content) && m.orderedRespMap.m != nil
 
 //@ func respDeserializer.getNextDynamicAttributeMap
 //@ prop C01 C13
@@ -310,6 +312,6 @@ package redisemu
 //@ func respDeserializer.deserializeNext
 //@ prop C01 C13
 //@ requires rl != nil && 0 <= rl.pos && rl.pos <= len(rl.content)
-//@ modifies respDeserializer.pos respDeserializer.nextPos respDeserializer.lineNumber alloc map<respValue,respValue> map<respValue,struct{}> orderedRespMap respValue
+//@ modifies respDeserializer.pos respDeserializer.nextPos respDeserializer.lineNumber alloc map<respValue,respValue> map<respValue,struct{}> orderedRespMap respValue Builder
 //@ ensures consumed: valid ==> length > 0 && rl.pos == old(rl.pos)+length && rl.pos <= len(rl.content)
 //@ ensures bounded: old(rl.pos) <= rl.pos && rl.pos <= len(rl.content)
